@@ -1,0 +1,36 @@
+//go:build verif
+
+package dnsserver
+
+import (
+	"context"
+	"sync/atomic"
+
+	"github.com/facebookincubator/dns/dnsrocks/db"
+)
+
+var verifYieldHook atomic.Value // of func(context.Context, string)
+
+// SetVerifYieldHook installs a scheduler callback invoked at the named yield
+// points of ServeDNSWithRCODE and Reload. Verification builds only.
+func SetVerifYieldHook(f func(ctx context.Context, point string)) {
+	verifYieldHook.Store(f)
+}
+
+func verifYield(ctx context.Context, point string) {
+	if f, ok := verifYieldHook.Load().(func(context.Context, string)); ok && f != nil {
+		f(ctx, point)
+	}
+}
+
+// SetDBForVerif installs a caller-built *db.DB as the served database.
+func (h *FBDNSDB) SetDBForVerif(d *db.DB) { h.dnsdb = d }
+
+// DBForVerif returns the currently served *db.DB.
+func (h *FBDNSDB) DBForVerif() *db.DB {
+	h.reloadMu.RLock()
+	defer h.reloadMu.RUnlock()
+	return h.dnsdb
+}
+
+func verifYieldReload(point string) { verifYield(context.Background(), point) }
